@@ -273,8 +273,7 @@ package ledger
 //@           !(exists j :: 0 <= j && j <= rangeindex#0 && bytesof(ledger.finalityItems.removedKeys[j]) == c))
 //@   loop 1: modifies elems(keys)
 //@   loop 1: invariant keys == nil || loopfresh(keys)
-//@   loop 1: invariant forall i :: 0 <= i && i < len(keys) ==> visited(keys[i])
-//@   loop 1: invariant forall k :: visited(k) ==> (exists i :: 0 <= i && i < len(keys) && keys[i] == k)
+//@   loop 1: invariant forall k :: visited(k) <==> inlist(keys, k)
 //@   loop 1: invariant forall k :: visited(k) ==> has(ledger.finalityItems.updatedItems, k)
 //@   loop 2: modifies treehas, treeval
 //@   loop 2: invariant forall t :: t != ledger.SimpleLedger.tree ==> treehas[t] == old(treehas[t]) && treeval[t] == old(treeval[t])
@@ -283,7 +282,8 @@ package ledger
 //@   loop 2: invariant forall c :: (forall i :: 0 <= i && i <= rangeindex#1 ==> bytesof(keys[i]) != c) ==>
 //@           treehas[ledger.SimpleLedger.tree][c] == (old(treehas[ledger.SimpleLedger.tree][c]) && !old(removed_bytes(ledger.finalityItems, c))) &&
 //@           treeval[ledger.SimpleLedger.tree][c] == old(treeval[ledger.SimpleLedger.tree][c])
-//@   loop 2: invariant forall k :: has(ledger.finalityItems.updatedItems, k) <==> (exists i :: 0 <= i && i < len(keys) && keys[i] == k)
+//@   loop 2: invariant forall k :: has(ledger.finalityItems.updatedItems, k) <==> inlist(keys, k)
+//@   assert@call(Sort,0): forall k :: has(ledger.finalityItems.updatedItems, k) <==> inlist(keys, k)           [C01,C18]
 
 //@ func (ledger *SimpleLedger[T]) ImmutableLedgerAt(n, cacheSize)
 //@   nopanic
